@@ -527,8 +527,10 @@ def fam_linalg(tier, kind=R):
         for o in [None, 2, 3, 4, "fro", "nuc", INF, -INF, 1, 0, 0.5, -1, 2.5, 1.5]:
             if o in (2.5, 1.5, 4) and not T:
                 continue
-            if not T and len(s) > 1 and int(onp.prod(s)) > 4 and o not in (None, "fro", 2):
-                continue  # quick tier: piecewise / high-degree norms only on <= 4 entries (path and solver cost)
+            if len(s) > 1 and int(onp.prod(s)) > (6 if T else 4) and o not in (None, "fro", 2):
+                continue  # piecewise / high-degree norms only on <= 4 entries (thorough: 6): path and solver cost
+            if T and o in (2.5, 1.5, 4) and int(onp.prod(s)) > 4:
+                continue
             yield c("norm", "la.norm(x,%r)" % (o,), lambda np, x, _o=o: np.linalg.norm(x, _o), [kind(*s)])
             for ax in list(range(-nd, nd)) + ([(0, 1), (1, 0), (-1, -2), (0, -1)] if nd >= 2 else []) + ([(0, 2), (1, 2), (2, 0)] if nd == 3 else []):
                 yield c("norm", "la.norm(x,%r,axis=%r)" % (o, ax), lambda np, x, _o=o, _a=ax: np.linalg.norm(x, _o, axis=_a), [kind(*s)])
